@@ -1,6 +1,7 @@
 package main
 
 import (
+	"regexp"
 	"fmt"
 	"go/token"
 	"go/types"
@@ -274,6 +275,14 @@ func (e *Exec) yieldPoint(mu value) {
 var yieldAnyLocks = []string{".handleMu", ".programErrorMu", ".insertMu", ".searchMu"}
 
 func init() {
+	// a line is about to be processed by a VM goroutine: the harness may
+	// delay that goroutine here (verifPreemptPoint, if the job has one)
+	stubs["(*github.com/google/mtail/internal/runtime/vm.VM).ProcessLogLine"] = func(e *Exec, fn *ssa.Function, args []value) value {
+		if h := e.sh.entry.Pkg.Func("verifPreemptPoint"); h != nil && e.cur.id != 0 {
+			e.call(h, nil)
+		}
+		return e.callBody(fn, args)
+	}
 	dec := func(e *Exec, fn *ssa.Function, args []value) value {
 		var bs []Int
 		switch x := args[0].(type) {
@@ -403,6 +412,22 @@ func init() {
 				return []value(nil)
 			}
 			return r
+		}
+		// a concrete pattern on a concrete subject: the real matcher decides
+		if pat, ok := (*re).(string); ok && strings.HasPrefix(pat, "regexp:") {
+			if subj, ok := concStr(args[1]); ok {
+				if rx, err := regexp.Compile(strings.TrimPrefix(pat, "regexp:")); err == nil {
+					m := rx.FindStringSubmatch(subj)
+					if m == nil {
+						return []value(nil)
+					}
+					out := make([]value, len(m))
+					for i := range m {
+						out[i] = m[i]
+					}
+					return out
+				}
+			}
 		}
 		panic(inconclusive{"regexp match without a harness-provided outcome"})
 	}
